@@ -308,6 +308,15 @@ def main():
             if not undecided:
                 undecided += er.get('undecided', [])
 
+    # ---- thorough tier: contract sensitivity for this property (one-line mutants must be rejected, behaviour-preserving edits
+    # must stay quiet); statements about the check itself, they never change the verdict
+    sens = None
+    if tier == 'thorough' and not os.environ.get('VP_NO_SENSITIVITY') and os.environ.get('VP_REPO', '/repo') == '/repo':
+        try:
+            import sensitivity as S
+            sens = S.run(prop, workers=4)
+        except Exception as e:
+            sens = {'error': repr(e)}
     wall = time.time() - t0
     # ---- report
     rc = 0
@@ -369,6 +378,7 @@ def main():
                 'extraction_rules': 'R0 drop logging/attrs/cfg-off items, R1 declared outline, R2 byte literals, R4 result name, R5 closure params, R6 external_body, R7 setter macro expansion, R8 for-desugar, R9 mut params, R10 by-value writer, R11 path flattening, R12 generic struct at &mut, R13 status matches!, R14 format pieces, R15 hoisted consts (DESIGN.md 3.2); erasure check passed for every extracted item',
                 'not_decided': pc.get('not_decided', []),
                 'changed_outside_contracts': residue_diffs,
+                'sensitivity': sens,
             },
             'assumptions': pc.get('assumptions', []) + ['machine integers exact; usize = 64 bit', 'every item in coverage.trusted_base is assumed, not proved'],
             'wall_s': round(wall, 2), 'violations': len(seen_v),
